@@ -158,22 +158,22 @@ def value_text(rng, t: str) -> str:
     k = kind_of(t)
     c = rng.random()
     if k == "int":
-        if c < 0.6:
+        if c < 0.65:
             return str(c06.rand_int(rng))
-        if c < 0.8:
+        if c < 0.9:
             return rng.choice([" 5 ", "+7", "-0", "007", "1_000", "\n12\t", "  -3"])
-        return rng.choice(["", "abc", "1.0", "0x10", "5 5", "--1", "1__0", "_1", "1_", "+", "12a", "٣"])
+        return rng.choice(["", "abc", "1.0", "0x10", "5 5", "--1", "1__0", "_1", "1_", "+", "12a"])
     if k == "float":
-        if c < 0.6:
+        if c < 0.65:
             return repr(c06.rand_float(rng))
-        if c < 0.8:
+        if c < 0.9:
             return rng.choice(["1", " 2.5 ", "1e3", "-.5", "+1.", "Infinity", "NaN", "1_0.5", "0.30000000000000004"])
         return rng.choice(["", "abc", "1,5", "1.2.3", "e5"])
     if k == "str":
         return c06.rand_str(rng)
     if k == "bool":
         return rng.choice(["1", "0", "true", "false", "yes", "no", "TRUE", "Yes", "True", " 1", "", "2", "on", "y"])
-    if c < 0.75:
+    if c < 0.9:
         if t == "date":
             v: Any = c06.rand_date(rng)
         elif t.startswith("dateTime"):
@@ -298,7 +298,7 @@ def render_fault(rng, ser: List[str], p: str = "s") -> str:
 GARBAGE = ["", "not xml at all", "<unclosed", "<a></b>", "<html><body><h1>500 Internal Server Error</h1></body>", "\0\0\0",
            "<?xml version=\"1.0\"?>", "<a>&nbsp;</a>", "{\"json\": true}", "<a><b></a></b>", "  ", "<a/><b/>", "<a>\x01</a>"]
 NEITHER = ["<html><body><h1>Error</h1></body></html>", "<a/>", "<root><child>text</child></root>"]
-STATUSES = [200, 200, 200, 200, 500, 500, 404, 401, 412, 503, 204, 302, 0, 600]
+STATUSES = [500, 500, 500, 404, 401, 412, 503, 204, 302, 0, 600]
 
 
 def rand_decl(rng) -> Dict[str, Any]:
@@ -334,7 +334,7 @@ def rand_case(rng) -> Dict[str, Any]:
     for a in decl["args"]:
         if a["dir"] == "in":
             kwargs.append([a["name"], {"i4": ["i", "1"], "string": ["s", "x"], "boolean": ["b", True]}[a["type"]]])
-    status = rng.choice(STATUSES)
+    status = 200 if rng.random() < 0.6 else rng.choice(STATUSES)
     ser: List[str] = []
     c = rng.random()
     if c < 0.5:
@@ -365,7 +365,7 @@ def rand_case(rng) -> Dict[str, Any]:
         body = None
     if body is not None:
         tail = rng.choice(["", "", "", "\n", "\0", " \r\n\0\0", "\r\n", "\t \n", "\0\n\0"])
-        head = rng.choice(["", "", "", "", "", "\n", " ", "\0"])
+        head = rng.choice(["\n", " ", "\0", "\r\n "]) if rng.random() < 0.08 else ""
         if tail:
             ser.append("pad:tail" + ("-nul" if "\0" in tail else ""))
         if head:
